@@ -310,7 +310,7 @@ def shrinks(spec, viol):
         if r['variant'] != 'plain' and not w.get('p_preempt'):
             s = copy.deepcopy(spec); s['runs'][k]['variant'] = 'plain'
             yield s
-        for key in ('p_stall', 'p_shortfall', 'p_preempt', 'p_hook_yield', 'tw_descendants', 'pick_order'):
+        for key in ('p_stall', 'p_shortfall', 'p_preempt', 'p_burst', 'p_hook_yield', 'tw_descendants', 'pick_order'):
             if w.get(key):
                 s = copy.deepcopy(spec); s['runs'][k]['world'][key] = 0
                 if r.get('dec') is None:
